@@ -35,7 +35,7 @@ CLAIMS = {
    ref='5/C05, 10.4', note='Partial with respect to the runtime: wall-clock bounds are measured with slack, not proved; termination of check-extension chains is assumed (fuel).'),
  'C06': dict(cat='proof', tech='Lean 4 inductive invariant of the UCI transition system (kernel-checked finite closure) + go/ast source-order facts required by theorem + concurrent dialogues',
    text="PROVED (Props/C06): for the transition system of reader, search goroutine, flag and cancellation under a rule-obeying GUI, every reachable state (dialogues of any length, any interleaving) satisfies: no go refused, "
-        "no position refused after bestmove, no stop lost, no bestmove without go, no deadlock, next position accepted. 17 order-of-events / lock-discipline facts are extracted from the source on every run by an abstract interpretation of the handlers "
+        "no position refused after bestmove, no stop lost, no bestmove without go, no deadlock, next position accepted. 18 order-of-events / lock-discipline facts are extracted from the source on every run by an abstract interpretation of the handlers "
         "(event sequences with helper calls inlined, guards as truth tables over the flag values) and required by theorem (source_facts_hold). Concurrent dialogues (back-to-back writes, stop/isready bursts) are driven through the real line handler in-process and through the real binary: bestmove/readyok counts, "
         "no deadlock, stop latency, whole output lines, legal answers.", ref='5/C06, 10.4',
    note='Go scheduler fairness, channel/context semantics and write(2) atomicity are trusted; promptness is measured.'),
